@@ -424,6 +424,83 @@ Qed.
 (* ---------------- runQueue ---------------- *)
 Notation run_queue_sorted := (run_queue_sorted P p_quota p_kill p_create p_start running).
 
+(* ---------------- an invariant of the pool is carried through a pass ---------------- *)
+Section PoolInv.
+Variable R : P -> Prop.
+Variable H : N -> Prop.      (* what is known about a uuid whose start succeeds in this pass *)
+Hypothesis Rq : forall p, R p -> R (snd (p_quota p)).
+Hypothesis Rk : forall u p, R p -> R (snd (p_kill u p)).
+Hypothesis Rc : forall it p, R p -> R (snd (p_create it p)).
+(* StartContainer is only ever called right after KillContainer(uuid) answered false *)
+Hypothesis Rs : forall it u p, R p -> fst (p_kill u p) = false ->
+  (fst (p_start it u (snd (p_kill u p))) = true -> H u) ->
+  R (snd (p_start it u (snd (p_kill u p)))).
+
+Lemma try_start_inv e s evs s' :
+  try_start e s = (evs, s') -> R (pool s) -> (forall it u, In (EStart it u true) evs -> H u) -> R (pool s').
+Proof.
+  unfold C16_runq.try_start. intros E HR HH.
+  destruct (memN (e_it e) (dontstart s)); [inv_pair; exact HR|].
+  destruct (p_kill (e_uuid e) (pool s)) as [k p1] eqn:Ek. destruct k.
+  - inv_pair. cbn [pool]. pose proof (Rk (e_uuid e) _ HR) as X. rewrite Ek in X. exact X.
+  - destruct (p_start (e_it e) (e_uuid e) p1) as [r p2] eqn:Es. inv_pair. cbn [pool].
+    pose proof (Rs (e_it e) (e_uuid e) _ HR) as X. rewrite Ek in X. cbn [fst snd] in X. rewrite Es in X. cbn [fst snd] in X.
+    apply X; [reflexivity|]. intros ->. apply (HH (e_it e)). right; left; reflexivity.
+Qed.
+
+Lemma step_inv e s evs s' brk :
+  step e s = (evs, s', brk) -> R (pool s) -> (forall it u, In (EStart it u true) evs -> H u) -> R (pool s').
+Proof.
+  unfold C16_runq.step. intros E HR HH.
+  destruct (negb (C16_runq.eligible running e)); [inv_pair; exact HR|].
+  destruct (e_state e); try (inv_pair; exact HR).
+  - (* Queued *)
+    destruct (uget (e_it e) (unalloc s) <? 1).
+    + destruct (p_quota (pool s)) as [q p0] eqn:Eq. pose proof (Rq _ HR) as X0. rewrite Eq in X0. cbn [snd] in X0.
+      destruct q; [inv_pair; exact X0|].
+      destruct (p_kill (e_uuid e) p0) as [k p1] eqn:Ek. pose proof (Rk (e_uuid e) _ X0) as X1. rewrite Ek in X1.
+      destruct k; inv_pair; exact X1.
+    + destruct (p_kill (e_uuid e) (pool s)) as [k p1] eqn:Ek. pose proof (Rk (e_uuid e) _ HR) as X1. rewrite Ek in X1.
+      destruct k; inv_pair; exact X1.
+  - (* Locked *)
+    destruct (0 <? uget (e_it e) (unalloc s)).
+    + destruct (try_start e {| unalloc := udec (e_it e) (unalloc s); dontstart := dontstart s; locks := locks s; pool := pool s |})
+        as [evs0 s0] eqn:Et. inv_pair. eapply try_start_inv; [exact Et|exact HR|exact HH].
+    + destruct (p_quota (pool s)) as [q p0] eqn:Eq. pose proof (Rq _ HR) as X0. rewrite Eq in X0. cbn [snd] in X0.
+      destruct q; [inv_pair; exact X0|].
+      destruct (p_create (e_it e) p0) as [c p1] eqn:Ec. pose proof (Rc (e_it e) _ X0) as X1. rewrite Ec in X1. cbn [snd] in X1.
+      destruct c; [|inv_pair; exact X1].
+      destruct (try_start e {| unalloc := unalloc s; dontstart := dontstart s; locks := locks s; pool := p1 |}) as [evs0 s0] eqn:Et.
+      inv_pair. eapply try_start_inv; [exact Et|exact X1|]. intros it u Hin. apply (HH it). right; exact Hin.
+Qed.
+
+Lemma loop_inv l : forall s evs s' t,
+  loop l s = (evs, s', t) -> R (pool s) -> (forall it u, In (EStart it u true) evs -> H u) -> R (pool s').
+Proof.
+  induction l as [|e r IH]; intros s evs s' t E HR HH.
+  - cbn in E. inv_pair. exact HR.
+  - rewrite loop_cons in E. destruct (step e s) as [[evs0 s1] b] eqn:Es. destruct b.
+    + inv_pair. eapply step_inv; eauto.
+    + destruct (loop r s1) as [[evs2 s2] t2] eqn:El. inv_pair.
+      eapply IH; [exact El| |].
+      * eapply step_inv; [exact Es|exact HR|]. intros it u Hin. apply (HH it). apply in_or_app. left; exact Hin.
+      * intros it u Hin. apply (HH it). apply in_or_app. right; exact Hin.
+Qed.
+
+Theorem rq_pool_inv sorted u0 p :
+  R p -> (forall it u, In (EStart it u true) (r_log (run_queue_sorted sorted u0 p)) -> H u) ->
+  R (r_pool (run_queue_sorted sorted u0 p)).
+Proof.
+  intros HR HH. unfold C16_runq.run_queue_sorted in *.
+  destruct (loop sorted (mkrs u0 [] [] p)) as [[evs s] t] eqn:E.
+  assert (R (pool s)).
+  { eapply loop_inv; [exact E|exact HR|]. intros it u Hin. apply (HH it).
+    destruct t; cbn [r_log]; [apply in_or_app; left; exact Hin|exact Hin]. }
+  destruct t; exact H0.
+Qed.
+End PoolInv.
+
+
 Lemma rq_log_cases sorted u0 p :
   exists evs s t, loop sorted (mkrs u0 [] [] p) = (evs, s, t) /\
     r_log (run_queue_sorted sorted u0 p) =
